@@ -690,8 +690,8 @@ def verify(contract, timeout_ms=20000, case_filter=None, mutate=None, verbose=Fa
                     w = contract.witness(model, case, getattr(p, 'aux', None) or aux_box.get('aux'))
                 except Exception:
                     continue
-                if not w:
-                    continue
+                if not w or (isinstance(w, dict) and (w.get('error') or w.get('data', 1) is None)):
+                    continue            # the model is too large to be written out as concrete inputs
                 per_label[lab] = per_label.get(lab, 0) + 1
                 rep.cross = getattr(rep, 'cross', []) + [{'case': label, 'path': pi, 'outcome': lab, 'witness': w,
                                                             'lib': sorted(a for a in p.axioms_used if a.startswith('A-LIB') or a.startswith('numpy') or a.startswith('contract:'))[:6]}]
